@@ -880,14 +880,19 @@ impl<P: RuntimeProvider + Send + Sync> SqliteZoneHandler<P> {
                 DNSClass::NONE => {
                     info!("deleting specific record: {rr:?}");
                     // NONE     rrset    rr       Delete an RR from an RRset
-                    if let Some(rrset) = self.in_memory.records_mut().await.get_mut(&rr_key) {
+                    let mut records = self.in_memory.records_mut().await;
+                    if let Some(rrset) = records.get_mut(&rr_key) {
                         // b/c this is an Arc, we need to clone, then remove, and replace the node.
                         let mut rrset_clone: RecordSet = RecordSet::clone(&*rrset);
                         let deleted = rrset_clone.remove(rr, serial);
                         info!("deleted ({deleted}) specific record: {rr:?}");
                         updated = updated || deleted;
 
-                        if deleted {
+                        if deleted && rrset_clone.is_empty() {
+                            // an RRset without RRs does not exist: drop the entry, otherwise it
+                            // keeps blocking e.g. a later CNAME at this name
+                            records.remove(&rr_key);
+                        } else if deleted {
                             *rrset = Arc::new(rrset_clone);
                         }
 
